@@ -2,15 +2,15 @@ import HdVerif.Model.Json
 import HdVerif.Model.SRContentSeq
 open Lean HdVerif HdVerif.Drv HdVerif.SRContentSeq
 
-/-- item = `[name, rel | null, isContainer, hasContent, uid]` -/
+/-- item = `[name, rel | null, isContainer, hasContent, uid, obj]` (obj = identity of the Python object) -/
 def itemOfJson (v : Json) : Except String Item := do
   let a ← v.getArr?
-  if a.size ≠ 5 then throw "item: 5 fields expected"
+  if a.size ≠ 6 then throw "item: 6 fields expected"
   let rel ← match a[1]! with
     | .null => pure none
     | r => some <$> r.getNat?
   pure { name := ← a[0]!.getNat?, rel := rel, isContainer := ← a[2]!.getBool?, hasContent := ← a[3]!.getBool?,
-         uid := ← a[4]!.getNat? }
+         uid := ← a[4]!.getNat?, obj := ← a[5]!.getNat? }
 
 def itemsOfJson (v : Json) : Except String (List Item) := do
   let a ← v.getArr?
@@ -30,9 +30,14 @@ def opOfJson (j : Json) : Except String (Op × List Item) := do
   let o ← getStr j "op"
   match o with
   | "append" => let x ← itemOfJson (← j.getObjVal? "x"); pure (.append x, [x])
+  | "extend_self" => pure (.extendSelf, [])
   | "extend" => let xs ← itemsOfJson (← j.getObjVal? "xs"); pure (.extend xs, xs)
   | "iadd" => let xs ← itemsOfJson (← j.getObjVal? "xs"); pure (.iadd xs, xs)
-  | "insert" => let x ← itemOfJson (← j.getObjVal? "x"); pure (.insert (← getInt j "pos") x, [x])
+  | "insert" =>
+    let x ← itemOfJson (← j.getObjVal? "x")
+    match getInt j "pos" with
+    | .ok p => pure (.insert p x, [x])
+    | .error _ => pure (.insertBad x, [x])      -- a position that is not an int
   | "setitem" => let x ← itemOfJson (← j.getObjVal? "x"); pure (.setItem (← getInt j "i") x, [x])
   | "setslice" =>
     let xs ← itemsOfJson (← j.getObjVal? "xs")
@@ -48,7 +53,7 @@ def opOfJson (j : Json) : Except String (Op × List Item) := do
   | "into_nodes" => pure (.intoNodes, [])
   | _ => throw s!"unknown op {o}"
 
-def uidsJson (l : List Item) : Json := natsToJson (l.map (·.uid))
+def uidsJson (l : List Item) : Json := natsToJson (l.map (·.obj))
 
 def errJson : Option ErrKind → Json
   | none => Json.null
@@ -71,7 +76,7 @@ def observe (s : Seq) (names : Nat) (probes : List Item) : Json :=
               ("in", Json.arr ins.toArray), ("nodes", nodes)]
 
 def addProbes (probes : List Item) (xs : List Item) : List Item :=
-  xs.foldl (fun acc x => if acc.any (·.uid == x.uid) then acc else acc ++ [x]) probes
+  xs.foldl (fun acc x => if acc.any (·.obj == x.obj) then acc else acc ++ [x]) probes
 
 /-- pool-level operation: "clone" / "attach" / anything else on member "seq" (default 0) -/
 def poolOpOfJson (j : Json) : Except String (PoolOp × List Item) := do
